@@ -61,14 +61,39 @@ import sys
 from corr.C20_partition import run_merge
 case = %(case)r
 res = run_merge(case)
-print("merged coords*8:", res.get("coords")); print("mapping:", res.get("mapping"))
-# property predicate: mapping composed with merged coordinates recovers each input mesh
 bad = "error" in res
-if not bad:
+if bad:
+    print("Mesh.Merge raised:", res["error"])
+else:
+    print("merged: %%d nodes, elements %%s" %% (len(res["coords"]), {t: len(r) for t, r in res["groups"].items()}))
+    pts = [tuple(p) for p in res["coords"]]
+    # 1. mapping composed with the merged coordinates recovers each input mesh
     for m, mp in zip(case["meshes"], res["mapping"]):
         for j, p in enumerate(m["coords"]):
             if res["coords"][mp[j]] != p:
                 print("node", j, "coords", p, "mapped to", mp[j], "with coords", res["coords"][mp[j]]); bad = True
+    if case["mergePoints"]:
+        # 2. coincident nodes identified: no duplicated point, coincident inputs -> same output id
+        ndistinct = len(set(tuple(p) for m in case["meshes"] for p in m["coords"]))
+        print("merged nodes:", len(pts), " distinct input points:", ndistinct)
+        bad = bad or len(pts) != ndistinct or len(set(pts)) != len(pts)
+        ids = {}
+        for m, mp in zip(case["meshes"], res["mapping"]):
+            for j, p in enumerate(m["coords"]):
+                if ids.setdefault(tuple(p), mp[j]) != mp[j]:
+                    print("coincident input nodes at", p, "are mapped to different merged nodes", ids[tuple(p)], mp[j]); bad = True; break
+    else:
+        bad = bad or len(pts) != sum(len(m["coords"]) for m in case["meshes"])
+    # 3. elements: every input element is present; with duplicate removal each geometric element once
+    for t in set(t for m in case["meshes"] for t in m["groups"]):
+        geo_in = [frozenset(tuple(m["coords"][n]) for n in row) for m in case["meshes"] for row in m["groups"].get(t, [])]
+        geo_out = [frozenset(pts[n] for n in row) for row in res["groups"].get(t, [])]
+        expect = len(set(geo_in)) if (case["unique"] and case["mergePoints"]) else None
+        print(t, ": input elements", len(geo_in), "distinct", len(set(geo_in)), "merged", len(geo_out))
+        bad = bad or set(geo_in) != set(geo_out) or (expect is not None and len(geo_out) != expect) or (not case["unique"] and len(geo_out) != len(geo_in))
+    if "area_expected" in case and res.get("area") is not None:
+        print("area", res["area"], "expected", case["area_expected"])
+        bad = bad or abs(res["area"] - case["area_expected"]) > 1e-10 * max(1.0, case["area_expected"])
 sys.exit(1 if bad else 0)
 '''
 
@@ -153,7 +178,100 @@ def gen_merge(ctx):
             meshes.append({"coords": coords, "groups": groups, "nx": nx, "ny": ny})
         cases.append({"id": i, "meshes": meshes, "mergePoints": rng.random() < 0.8, "unique": rng.random() < 0.5,
                       "relation": relation})
+    cases += gen_merge_structured(ctx, len(cases))
+    for c in cases:
+        # Mesh.coord is "global in its indexing only": rows of nodes no element group uses are never
+        # written and read as (0, 0, 0) (documented in Mesh.coord) - that is the input Merge sees
+        for m in c["meshes"]:
+            used = set(n for rows in m["groups"].values() for row in rows for n in row)
+            m["coords"] = [p if j in used else [0, 0, 0] for j, p in enumerate(m["coords"])]
+        c["area_expected"] = merge_expected_area(c)
     return cases
+
+
+def _grid_mesh(rng, nx, ny, ox, oy, use_tri=False, permute=True, keep=None, extra_pts=()):
+    """nx x ny cells of size 8 at offset (ox, oy); keep = set of cell indices kept (None = all); all grid
+    points (+ extra_pts) are in the coordinate array even when no kept cell uses them."""
+    pts = [(ox + 8 * a, oy + 8 * b, 0) for b in range(ny + 1) for a in range(nx + 1)] + list(extra_pts)
+    perm = list(range(len(pts)))
+    if permute:
+        rng.shuffle(perm)
+    inv = [0] * len(perm)
+    for newi, old in enumerate(perm):
+        inv[old] = newi
+    coords = [list(pts[old]) for old in perm]
+    quads, tris = [], []
+    for b in range(ny):
+        for a in range(nx):
+            if keep is not None and (b * nx + a) not in keep:
+                continue
+            n0 = b * (nx + 1) + a
+            q = [inv[v] for v in (n0, n0 + 1, n0 + nx + 2, n0 + nx + 1)]
+            if use_tri and (a + b) % 2 == 0:
+                tris += [[q[0], q[1], q[2]], [q[0], q[2], q[3]]]
+            else:
+                quads.append(q)
+    groups = {}
+    if quads:
+        groups["QUAD4"] = quads
+    if tris:
+        groups["TRI3"] = tris
+    return {"coords": coords, "groups": groups, "nx": nx, "ny": ny}
+
+
+def gen_merge_structured(ctx, first_id):
+    """lists of >= 3 meshes with points shared by three or more of them."""
+    rng = ctx.rng
+    quick = ctx.tier == "quick"
+    fams = []
+    for rep in range(1 if quick else 4):
+        n = rng.randint(1, 2)
+        tri = rng.random() < 0.5
+        # four quadrants sharing the centre node (4 coincident points), edges shared pairwise
+        fams.append(("quadrants", [_grid_mesh(rng, n, n, 8 * n * i, 8 * n * j, use_tri=tri and (i + j) % 2 == 0) for j in (0, 1) for i in (0, 1)]))
+        # the same mesh k times, each copy with its own node numbering
+        k = rng.choice([3, 4])
+        nx, ny = rng.randint(1, 3), rng.randint(1, 2)
+        fams.append(("repeat-%d" % k, [_grid_mesh(rng, nx, ny, 0, 0, use_tri=tri) for _ in range(k)]))
+        # 3-4 parts of a split: every part carries ALL global coordinate rows, owns a slice of the
+        # cells plus one ghost cell of the next part (duplicated elements)
+        nx, ny = rng.randint(2, 4), rng.randint(1, 2)
+        k = rng.choice([3, 4])
+        cells = list(range(nx * ny))
+        parts = []
+        for r in range(k):
+            own = set(cells[r::k])
+            ghost = {cells[(min(own) + 1) % len(cells)]} if own else set()
+            parts.append(_grid_mesh(rng, nx, ny, 0, 0, use_tri=tri, permute=bool(rep % 2), keep=own | ghost))
+        fams.append(("split-%d-parts" % k, [p for p in parts if p["groups"]]))
+        # chain: mesh i overlaps mesh i+1 and i+2
+        k = rng.choice([3, 4, 5])
+        fams.append(("chain-%d" % k, [_grid_mesh(rng, 3, 1, 8 * i, 0, use_tri=tri and i % 2 == 0) for i in range(k)]))
+        # star: k meshes touching in ONE corner point only
+        fams.append(("corner-star", [_grid_mesh(rng, 1, 1, 8 * i, 8 * j) for (i, j) in ((0, 0), (1, 1), (1, 0))] +
+                     [_grid_mesh(rng, 1, 1, 0, 8, extra_pts=[(8, 8, 0)])]))
+    cases = []
+    for name, meshes in fams:
+        flags = [(True, True), (True, False)] + ([(False, rng.random() < 0.5)] if rng.random() < 0.5 or not quick else [])
+        for mp, un in flags:
+            cases.append({"id": first_id + len(cases), "meshes": meshes, "mergePoints": mp, "unique": un, "relation": name})
+    return cases
+
+
+def merge_expected_area(c):
+    """exact area (cells of side 1 in physical units): each distinct geometric element once when
+    duplicates are removed after point merging, every input element otherwise."""
+    geo = []
+    for m in c["meshes"]:
+        for t, rows in m["groups"].items():
+            for row in rows:
+                geo.append((frozenset(tuple(m["coords"][n]) for n in row), 1.0 if t == "QUAD4" else 0.5))
+    if c["unique"] and c["mergePoints"]:
+        return float(sum(dict(geo).values()))
+    if c["unique"]:
+        # without point merging only elements with identical node ids (after offsets) coincide: none across meshes
+        return float(sum(a for _, a in geo))
+    return float(sum(a for _, a in geo))
 
 
 # --------------------------------------------------------------------------------------
@@ -439,6 +557,40 @@ def run(ctx):
     run_merge(ctx, merges, data["merge"])
 
 
+def merge_predicates(m, r):
+    probs = []
+    pts = [tuple(p) for p in r["coords"]]
+    if not all(r["coords"][mp[j]] == p for mesh, mp in zip(m["meshes"], r["mapping"]) for j, p in enumerate(mesh["coords"])):
+        probs.append(("mapping", "mapping composed with the merged coordinates does not recover the input nodes"))
+    if m["mergePoints"]:
+        nd = len(set(tuple(p) for mesh in m["meshes"] for p in mesh["coords"]))
+        if len(pts) != nd or len(set(pts)) != len(pts):
+            probs.append(("coincident-nodes-not-merged", "%d merged nodes for %d distinct input points (%d duplicated merged points)" % (len(pts), nd, len(pts) - len(set(pts)))))
+        ids = {}
+        for mesh, mp in zip(m["meshes"], r["mapping"]):
+            for j, p in enumerate(mesh["coords"]):
+                if ids.setdefault(tuple(p), mp[j]) != mp[j]:
+                    probs.append(("coincident-nodes-different-ids", "coincident input nodes at %s are mapped to different merged nodes %d and %d" % (p, ids[tuple(p)], mp[j])))
+                    break
+            else:
+                continue
+            break
+    elif len(pts) != sum(len(mesh["coords"]) for mesh in m["meshes"]):
+        probs.append(("node-count", "mergePoints=False must keep every input node"))
+    for t in sorted(set(t for mesh in m["meshes"] for t in mesh["groups"])):
+        gin = [frozenset(tuple(mesh["coords"][n]) for n in row) for mesh in m["meshes"] for row in mesh["groups"].get(t, [])]
+        gout = [frozenset(pts[n] for n in row) for row in r["groups"].get(t, [])]
+        if set(gin) != set(gout):
+            probs.append(("elements", "%s: merged elements are not the input elements" % t))
+        elif m["unique"] and m["mergePoints"] and len(gout) != len(set(gin)):
+            probs.append(("duplicate-elements-kept", "%s: %d merged elements for %d distinct input elements" % (t, len(gout), len(set(gin)))))
+        elif not m["unique"] and len(gout) != len(gin):
+            probs.append(("elements", "%s: %d merged elements for %d input elements without duplicate removal" % (t, len(gout), len(gin))))
+    if r.get("area") is not None and "area_expected" in m and abs(r["area"] - m["area_expected"]) > 1e-10 * max(1.0, m["area_expected"]):
+        probs.append(("area", "area %.12g, expected %.12g" % (r["area"], m["area_expected"])))
+    return probs
+
+
 def run_merge(ctx, merges, results):
     by_id = {r["id"]: r for r in results}
     names = ["POINT", "SEG2", "TRI3", "QUAD4"]
@@ -486,7 +638,23 @@ def run_merge(ctx, merges, results):
             bad.append((m, f))
     ctx.cov["merge_cases"] = len(ok_ids)
     ctx.obligation("corr:merge-vs-model", not bad, "%d merge cases (coords, mapping, remapped connectivity)" % len(ok_ids), n=max(len(ok_ids), 1))
-    if bad:
+    # the property's own predicates on the implementation's output
+    pred_bad = set()
+    for m in merges:
+        if m["id"] not in ok_ids:
+            continue
+        r = by_id[m["id"]]
+        probs = merge_predicates(m, r)
+        for pb, msg in probs:
+            key = "merge:%s:%s" % (pb, "3+meshes" if len(m["meshes"]) >= 3 else "%d-mesh" % len(m["meshes"]))
+            if key in pred_bad:
+                continue
+            pred_bad.add(key)
+            ctx.violation(key, "Mesh.Merge of %d meshes (%s, mergePoints=%s, constructUniqueElements=%s): %s"
+                          % (len(m["meshes"]), m["relation"], m["mergePoints"], m["unique"], msg),
+                          {"replay_py": REPLAY_MERGE % dict(case=m), "case": m, "impl": r, "theorems": "C20_merge_identifies / C20_merge_no_duplicate_points / C20_merge_inverse"})
+    ctx.obligation("corr:merge-predicates", not pred_bad, "node count, coincident->same id, element sets, area, coordinates recovered", n=max(len(ok_ids), 1))
+    if bad and not pred_bad:
         m, f = bad[0]
         r = by_id[m["id"]]
         # property predicate on the implementation output
